@@ -205,8 +205,13 @@ pub fn record(prop: &str, rules_file: &str, out: &str, nwords: usize) {
     let al = v::no_aliases();
     match prop {
         "C06" | "C07" | "C14" => {
+            let lex = crate::c13::load_lex();
             for a in &asts {
-                let text = rules::rule_text(&a["rule"], &t);
+                let canonical = rules::rule_text(&a["rule"], &t);
+                // every third rule is run in one of its documented respellings (feature abbreviations, arrows, `//`, alpha letters ...): the laws are about
+                // the rule, not about one way of writing it; findings are classified on the canonical text
+                let aseed = a["seed"].as_u64().unwrap_or(0);
+                let text = if aseed % 3 == 0 { sum.count("respelled_rules", 1); crate::c13::respell_rule(&canonical, seed.wrapping_mul(53).wrapping_add(aseed), &lex) } else { canonical.clone() };
                 let cls = a["class"].as_str().unwrap_or("any").to_string();
                 let mut r2 = Rng::new(seed.wrapping_mul(31).wrapping_add(a["seed"].as_u64().unwrap_or(0)));
                 // half of the words are random, half are assembled from segments matching the rule's own elements (whole, cut short, doubled)
@@ -227,7 +232,7 @@ pub fn record(prop: &str, rules_file: &str, out: &str, nwords: usize) {
                     sum.vectors += 1;
                     if o.out == "ok" { sum.count("ok", 1); if after != word { sum.nontrivial += 1; } } else { sum.count(o.out, 1); }
                     w.put(json!({"cls": cls, "out": o.out, "w": w_compact(&word, false), "a": w_compact(&after, false)}),
-                          json!({"rule": text, "word": wt, "before": v::render_word(&word, &al), "outcome": o.out, "detail": o.detail, "after": v::render_word(&after, &al)}));
+                          json!({"rule": canonical, "rule_as_run": text, "word": wt, "before": v::render_word(&word, &al), "outcome": o.out, "detail": o.detail, "after": v::render_word(&after, &al)}));
                     if sum.samples.len() < 4 && o.out == "ok" { sum.sample(|| json!({"rule": text, "word": wt, "after": v::render_word(&after, &al), "class": cls})); }
                 }
             }
